@@ -4,6 +4,7 @@ import (
 	"bufio"
 	"bytes"
 	"errors"
+	"fmt"
 	"io"
 	"testing"
 	"testing/iotest"
@@ -30,6 +31,7 @@ type CaseC18 struct {
 	Chunks   []int   `json:"chunks"`    // for reader kind 5
 	ReadFail int     `json:"read_fail"` // reader fails with its own error after this many bytes, -1 = never
 	ViaCopy  bool    `json:"via_copy"`  // drive ReadFrom through io.Copy
+	Again    bool    `json:"again"`     // call ReadFrom a second time on the SAME adapter (with an intact stream)
 }
 
 func genC18(t *rapid.T) CaseC18 {
@@ -55,6 +57,15 @@ func genC18(t *rapid.T) CaseC18 {
 		c.ReadFail = rapid.IntRange(0, c.Packets*188+c.Extra).Draw(t, "rfail-at")
 	}
 	c.ViaCopy = rapid.Bool().Draw(t, "via-copy")
+	c.Again = rapid.IntRange(0, 2).Draw(t, "again") == 0
+	if rapid.IntRange(0, 60).Draw(t, "long-stream") == 0 {
+		// streams longer than any plausible internal buffer, read in awkward pieces
+		c.Packets = rapid.IntRange(340, 800).Draw(t, "long-packets")
+		c.FailAt = -1
+		c.Reader = rapid.SampledFrom([]int{3, 5, 5, 1}).Draw(t, "long-reader")
+		c.Chunks = rapid.SliceOfN(rapid.SampledFrom([]int{65436, 65535, 65537, 4097, 1000, 187, 189, 32768, 100}), 1, 4).Draw(t, "long-chunks")
+		c.Content = ref.Hex{}
+	}
 	return c
 }
 
@@ -123,6 +134,8 @@ func checkC18(c CaseC18, x *hx.Ctx) *hx.Failure {
 	x.LabelIf(c.FailAt >= 0, "failing-packet-write")
 	x.LabelIf(c.ReadFail >= 0, "failing-reader")
 	x.LabelIf(c.Reader != 0, "fragmenting-reader")
+	x.LabelIf(c.Packets > 300, "stream>64KiB")
+	x.LabelIf(c.Again, "adapter-reused")
 
 	// ---- Write
 	sink := &c18Sink{failAt: c.FailAt, failN: c.FailN}
@@ -207,6 +220,31 @@ func checkC18(c CaseC18, x *hx.Ctx) *hx.Failure {
 	if f := c18Delivered(sink, data, wantDelivered, "readfrom"); f != nil {
 		f.Msg += " (reader kind " + []string{"bytes.Reader", "bufio", "one-byte", "half", "data-with-EOF", "chunks"}[c.Reader] + ")"
 		return f
+	}
+	if c.Again {
+		// the adapter must not carry anything over from the first call (whatever its outcome)
+		sink2 := &c18Sink{failAt: -1}
+		sink.failAt = -1
+		before := len(sink.got)
+		whole := data[:c.Packets*188]
+		var n2 int64
+		var err2 error
+		if c.Ctor >= 2 {
+			// function-backed adapters share the sink through the closure
+			n2, err2 = rf.ReadFrom(&fragReader{data: clone(whole), chunks: c.Chunks, failAfter: -1})
+			sink2.got = sink.got[before:]
+		} else {
+			n2, err2 = rf.ReadFrom(&fragReader{data: clone(whole), chunks: c.Chunks, failAfter: -1})
+			sink2.got = sink.got[before:]
+		}
+		if f := c18Delivered(sink2, whole, c.Packets, "readfrom-again"); f != nil {
+			f.Msg += fmt.Sprintf(" (second ReadFrom on the same adapter; the first call ended with n=%d err=%v)", rn, rerr)
+			return f
+		}
+		if err2 != nil || n2 != int64(len(whole)) {
+			return hx.Failf("readfrom-again-result", "second ReadFrom on the same adapter returned (%d, %v), want (%d, nil)", n2, err2, len(whole))
+		}
+		sink.got = sink.got[:before]
 	}
 	switch {
 	case c.FailAt >= 0 && c.FailAt < complete:
